@@ -1360,8 +1360,11 @@ func (c *Context) quantize(d, v *Decimal, exp int32) Condition {
 		} else {
 			nc := c.WithPrecision(uint32(p))
 			// The value is rescaled to exponent 0 below, so the context's
-			// MinExponent must not make the rounding treat it as subnormal.
+			// MinExponent must not make the rounding treat it as subnormal,
+			// nor its MaxExponent make it overflow: the exponent range applies
+			// to the result at its real exponent and is checked by the callers.
 			nc.MinExponent = MinExponent
+			nc.MaxExponent = MaxExponent
 
 			// The idea here is that the resulting d.Exponent after rounding will be 0. We
 			// have a number of, say, 5 digits, but p (our precision) above is set at, say,
